@@ -178,7 +178,7 @@ Fixpoint xrun_task (fuel : nat) (q : nat) (k : core) : option core :=
     | Some (PNEffect e, H1) => xrun_task f q (mkC (push_hout e H1) (k_spawn k) (k_slab k) (k_events k) (k_out k) (k_log k) (k_reqs k))
     | Some (PNEvent e, H1) => xrun_task f q (mkC H1 (k_spawn k) (k_slab k) (k_events k ++ [e]) (k_out k) (k_log k) (k_reqs k))
     | Some (PNDone, H1) =>
-        Some (mkC (drop_cmd DF cid H1) (k_spawn k) (xremove q (k_slab k)) (k_events k) (k_out k) (k_log k) (k_reqs k))
+        Some (mkC (drop_cmd (dfuel H1) cid H1) (k_spawn k) (xremove q (k_slab k)) (k_events k) (k_out k) (k_log k) (k_reqs k))
     | Some (PNPending, H1) => Some (setH H1 k)
     end
   end end.
